@@ -21,6 +21,34 @@ def enumValue (w : World) (e m : Nat) : Obj :=
   | some v => v
   | Option.none => .none
 
+/-! ### `Literal[...]` containing enum members
+
+`is_literal_containing_enums`: such a position is unstructured by run-time class (`self.unstructure`: a member becomes
+its value) and structured by `_structure_enum_literal`: a dict from "the member's value, or the plain value itself" to
+the literal's argument is indexed with the payload -- so the VALUE of a member is accepted and yields the member, the
+member itself is not; of two arguments with `==` keys the later one wins. -/
+
+-- (`Obj.isEnumM`, `litHasEnum`, `litConf`: Conv/Basic.lean)
+
+/-- the key of a literal argument in `_structure_enum_literal`'s dict -/
+def litKey (w : World) : Obj → Obj
+  | .enumM e m => enumValue w e m
+  | v => v
+
+/-- `{key(x): x for x in args}[val]` -/
+def litLookup (w : World) : List Obj → Obj → Option Obj
+  | [], _ => Option.none
+  | v :: vs, x =>
+    match litLookup w vs x with
+    | some r => some r
+    | Option.none => if Obj.pyEq (litKey w v) x then some v else Option.none
+
+/-- structuring at a `Literal[vs]` position: `_structure_enum_literal` when the literal contains enum members, else
+`_structure_simple_literal` (`val in args`, the payload itself is returned) -/
+def litStruct (w : World) (vs : List Obj) (x : Obj) : Option Obj :=
+  if litHasEnum vs then litLookup w vs x
+  else if Obj.memPy x vs then some x else Option.none
+
 def findField (fds : List Field) (k : Obj) : Option Field :=
   fds.find? (fun f => Obj.pyEq f.key k)
 
@@ -31,6 +59,8 @@ mutual
 def un (w : World) (cfg : Cfg) : Ty → Obj → Obj
   | .any, x => unAny w cfg x
   | .enum _, .enumM e m => enumValue w e m
+  -- a literal containing enum members: by run-time class (a member becomes its value); else `identity`
+  | .lit vs, x => if litHasEnum vs then unAny w cfg x else x
   | .coll k t, .coll ck xs =>
       if cfg.gen then mkColl k.unstructTo (unL w cfg t xs)
       else mkColl ck (unAnyL w cfg xs)
